@@ -468,7 +468,9 @@ func TestVerifC24(t *testing.T) {
 		// quick: singles and pairs over the small sizes, each big size alone and paired with {0,1,4097}
 		// on either side, triples over {0,1,4097}; thorough: singles, pairs and triples over all sizes
 		triple := vsched.Pick([]int{0, 1, 4097}, sizes)
-		extra := vsched.Pick([]int{readBufferSize, readBufferSize + 1}, []int{readBufferSize - 1, readBufferSize, readBufferSize + 1, 131072, 1<<20 + 1})
+		// 131072/131073 = the zstd block size and one byte more: a write policy that depends on "bulk"
+		// thresholds shows at and just above a compressor block boundary (seeded change C24)
+		extra := vsched.Pick([]int{readBufferSize, readBufferSize + 1, 131072, 131073}, []int{readBufferSize - 1, readBufferSize, readBufferSize + 1, 131071, 131072, 131073, 262145, 1<<20 + 1})
 		byteWiseMax := vsched.Pick(8200, 140000)
 		rbufs := []int{1, 7, 4096, 70000}
 		contents := []string{"zero", "text", "lcg"}
